@@ -365,63 +365,64 @@ func ruleCorridor(w *World, r *Report) {
 	})
 	if cand == nil {
 		r.add("LAYERFIT", fn+" / candidates", pos, Undecided, "the candidate list was not recognised as common.Difference(GetNspatialIdsAroundVoxcels(...), line IDs)")
-		return
 	}
-	if !isLine(getN.Call.Args[0]) {
-		r.add("LAYERFIT", fn+" / candidates", w.Pos(getN.Pos()), Undecided, "the neighbourhood box is built around "+describeValue(getN.Call.Args[0])+", which is not recognisably the line's ID list")
-	} else {
-		r.add("LAYERFIT", fn+" / candidates", w.Pos(getN.Pos()), Discharged, "candidates = N-layer box around the line IDs minus the line IDs")
-	}
-	// layer counts: max over line voxels of FitClearance(voxel, radius), inline or in a private helper
-	okFit, why := false, ""
-	hv := [2]ssa.Value{getN.Call.Args[1], getN.Call.Args[2]}
-	if ex0, ok := resolve(hv[0]).(*ssa.Extract); ok {
-		if hc, ok := ex0.Tuple.(*ssa.Call); ok && calleeOf(hc) != nil && w.InModule(calleeOf(hc)) && !funcIs(calleeOf(hc), modPath+"/transform", "FitClearanceAroundExtendedSpatialID") {
-			// helper form: H(line, radius) returning the two maxima
-			h := calleeOf(hc)
-			li, ri := -1, -1
-			for i, a := range hc.Call.Args {
-				if isLine(a) {
-					li = i
+	if cand != nil {
+		if !isLine(getN.Call.Args[0]) {
+			r.add("LAYERFIT", fn+" / candidates", w.Pos(getN.Pos()), Undecided, "the neighbourhood box is built around "+describeValue(getN.Call.Args[0])+", which is not recognisably the line's ID list")
+		} else {
+			r.add("LAYERFIT", fn+" / candidates", w.Pos(getN.Pos()), Discharged, "candidates = N-layer box around the line IDs minus the line IDs")
+		}
+		// layer counts: max over line voxels of FitClearance(voxel, radius), inline or in a private helper
+		okFit, why := false, ""
+		hv := [2]ssa.Value{getN.Call.Args[1], getN.Call.Args[2]}
+		if ex0, ok := resolve(hv[0]).(*ssa.Extract); ok {
+			if hc, ok := ex0.Tuple.(*ssa.Call); ok && calleeOf(hc) != nil && w.InModule(calleeOf(hc)) && !funcIs(calleeOf(hc), modPath+"/transform", "FitClearanceAroundExtendedSpatialID") {
+				// helper form: H(line, radius) returning the two maxima
+				h := calleeOf(hc)
+				li, ri := -1, -1
+				for i, a := range hc.Call.Args {
+					if isLine(a) {
+						li = i
+					}
+					if resolve(a) == ssa.Value(f.Params[2]) {
+						ri = i
+					}
 				}
-				if resolve(a) == ssa.Value(f.Params[2]) {
-					ri = i
+				ex1, ok1 := resolve(hv[1]).(*ssa.Extract)
+				if li < 0 || ri < 0 || !ok1 || ex1.Tuple != ssa.Value(hc) || ex0.Index != 0 || ex1.Index != 1 {
+					why = "the layer counts do not come from one helper call on (line IDs, radius)"
+				} else {
+					okFit, why = true, ""
+					n := 0
+					for _, ret := range returnsOf(h) {
+						if classifyReturn(h, ret) != retSuccess {
+							continue
+						}
+						n++
+						ok2, w2 := layerFitShape(h, func(v ssa.Value) bool { return resolve(v) == ssa.Value(h.Params[li]) }, h.Params[ri], [2]ssa.Value{ret.Results[0], ret.Results[1]})
+						if !ok2 {
+							okFit, why = false, "in helper "+w.FuncName(h)+": "+w2
+						}
+					}
+					if n == 0 {
+						okFit, why = false, "helper has no success return"
+					}
 				}
-			}
-			ex1, ok1 := resolve(hv[1]).(*ssa.Extract)
-			if li < 0 || ri < 0 || !ok1 || ex1.Tuple != ssa.Value(hc) || ex0.Index != 0 || ex1.Index != 1 {
-				why = "the layer counts do not come from one helper call on (line IDs, radius)"
 			} else {
-				okFit, why = true, ""
-				n := 0
-				for _, ret := range returnsOf(h) {
-					if classifyReturn(h, ret) != retSuccess {
-						continue
-					}
-					n++
-					ok2, w2 := layerFitShape(h, func(v ssa.Value) bool { return resolve(v) == ssa.Value(h.Params[li]) }, h.Params[ri], [2]ssa.Value{ret.Results[0], ret.Results[1]})
-					if !ok2 {
-						okFit, why = false, "in helper "+w.FuncName(h)+": "+w2
-					}
-				}
-				if n == 0 {
-					okFit, why = false, "helper has no success return"
-				}
+				why = "the layer counts are not the running maxima of the clearance fit"
 			}
 		} else {
-			why = "the layer counts are not the running maxima of the clearance fit"
+			okFit, why = layerFitShape(f, isLine, f.Params[2], hv)
 		}
-	} else {
-		okFit, why = layerFitShape(f, isLine, f.Params[2], hv)
-	}
-	if okFit {
-		r.add("LAYERFIT", fn+" / layer counts", pos, Discharged, "hLayers, vLayers = max over all line voxels of FitClearanceAroundExtendedSpatialID(voxel, radius)")
-	} else {
-		st := Violated
-		if strings.Contains(why, "expected one") || strings.Contains(why, "is not called with (line voxel, radius)") && strings.Contains(why, "in helper") || strings.Contains(why, "is not inside a loop over the line IDs") || strings.Contains(why, "do not come from one helper call") || strings.Contains(why, "are not the running maxima") || strings.Contains(why, "not the running maxima in a recognised form") || strings.Contains(why, "has no success return") {
-			st = Undecided // the construction was not recognised; nothing wrong was seen
+		if okFit {
+			r.add("LAYERFIT", fn+" / layer counts", pos, Discharged, "hLayers, vLayers = max over all line voxels of FitClearanceAroundExtendedSpatialID(voxel, radius)")
+		} else {
+			st := Violated
+			if strings.Contains(why, "expected one") || strings.Contains(why, "is not called with (line voxel, radius)") && strings.Contains(why, "in helper") || strings.Contains(why, "is not inside a loop over the line IDs") || strings.Contains(why, "do not come from one helper call") || strings.Contains(why, "are not the running maxima") || strings.Contains(why, "not the running maxima in a recognised form") || strings.Contains(why, "has no success return") {
+				st = Undecided // the construction was not recognised; nothing wrong was seen
+			}
+			r.add("LAYERFIT", fn+" / layer counts", pos, st, why)
 		}
-		r.add("LAYERFIT", fn+" / layer counts", pos, st, why)
 	}
 	// success returns: a union / concatenation of lists, possibly de-duplicated;
 	// each result variant (one per choice of the phi-merged operands) must contain
@@ -451,7 +452,7 @@ func ruleCorridor(w *World, r *Report) {
 				st := Violated
 				for _, part := range variant {
 					known := resolve(part) == ssa.Value(cand)
-					if ph, isPhi := resolve(part).(*ssa.Phi); isPhi && isAccumulatorPhi(ph) {
+					if ph, isPhi := resolve(part).(*ssa.Phi); isPhi && isAccumulatorPhi(ph) && !fedFromMap(ph) {
 						known = true
 					}
 					// the result of an exported function of the module is what its documentation says
@@ -486,6 +487,11 @@ func ruleCorridor(w *World, r *Report) {
 	}
 	if n == 0 {
 		r.add("INCLUDES", fn+" / results", pos, Undecided, "no success return")
+	}
+	if cand == nil {
+		// without the candidate list the filter rules have nothing to compare with
+		r.add("FILTER-SUBSET", fn+" / skipped mode", pos, Undecided, "the candidate list was not recognised")
+		return
 	}
 	if !sawCand {
 		r.add("FILTER-SUBSET", fn+" / skipped mode", pos, Undecided, "no result variant unions the unfiltered candidate list (skipped mode must return every candidate)")
@@ -1688,6 +1694,26 @@ func listVariants(w *World, v ssa.Value, depth int) [][]ssa.Value {
 
 // isAccumulatorPhi: the phi is a loop-carried list: one of its edges is an
 // append chain that starts from the phi itself.
+// fedFromMap: some element appended to the accumulator comes out of a map iteration (the
+// keys of a set built elsewhere: what that set holds is not visible in the list).
+func fedFromMap(p *ssa.Phi) bool {
+	ai := appendChain(p)
+	for _, ap := range ai.Appends {
+		elems, spread := appendedElems(ap)
+		if spread != nil {
+			elems = append(elems, spread)
+		}
+		for _, el := range elems {
+			if ex, ok := resolve(el).(*ssa.Extract); ok {
+				if _, isNext := ex.Tuple.(*ssa.Next); isNext {
+					return true
+				}
+			}
+		}
+	}
+	return false
+}
+
 func isAccumulatorPhi(p *ssa.Phi) bool {
 	for _, e := range p.Edges {
 		seen := map[ssa.Value]bool{}
